@@ -915,31 +915,6 @@ func c16RunOnce(c *c16Case) {
 // ---------------------------------------------------------------------------------------------
 // oracle_impl: the property as written, evaluated directly on the database
 
-// Known finding C16-join-side-unchecked: getNonFallbackSelectors drops ALL join-side selectors of a source as soon as ANY
-// join operand of that source always returns (`(a and on() hour()) / notfound`, `a * on() group_left() vector(1) / notfound`),
-// although only `<selector> or <always returning>` is a documented fallback.  Class predicate (independent of pint's
-// analysis): the unreported selector is not the first selector of the expression, and the expression has a vector-valued
-// operand without any selector (vector(...), or a date/time function without argument).
-const c16KnownJoinSide = "C16-join-side-unchecked"
-
-func c16HasSelectorFreeVectorOperand(root promParser.Node) bool {
-	found := false
-	promParser.Inspect(root, func(n promParser.Node, _ []promParser.Node) error {
-		if call, ok := n.(*promParser.Call); ok {
-			switch call.Func.Name {
-			case "vector":
-				found = true
-			case "hour", "minute", "month", "year", "day_of_week", "day_of_month", "day_of_year", "days_in_month":
-				if len(call.Args) == 0 {
-					found = true
-				}
-			}
-		}
-		return nil
-	})
-	return found
-}
-
 func c16Oracle(c *c16Case, astSels []*promParser.VectorSelector, astRoot promParser.Node) {
 	lb := c16ParseDur(c.LookbackRange)
 	hour := 60 * c16Minute
@@ -1095,9 +1070,6 @@ func c16Oracle(c *c16Case, astSels []*promParser.VectorSelector, astRoot promPar
 		}
 		if !found {
 			c.Fail = fmt.Sprintf("(b) metric of selector %s has no sample in the whole lookback window, no rule produces it and nothing exempts it, but no Bug \"query on nonexistent series\" is reported for it", k)
-			if k != order[0] && c16HasSelectorFreeVectorOperand(astRoot) {
-				c.Known = c16KnownJoinSide
-			}
 			return
 		}
 	}
